@@ -646,6 +646,65 @@ def run_unusable_between(params, known):
     return dict(name=params['name'], evaluations=count, nontrivial_keys=sorted(keys), violations=violations, known=[], samples=[])
 
 
+def run_failed_request_then_good(params, known):
+    """A send request that cannot be carried out (unknown interface, an address that is no MAC address)
+    among ordinary ones - handed over before the loop runs, or one after the other: every ordinary
+    request still leaves the node completely."""
+    violations = []
+    kinds = set()
+    count = 0
+    keys = set()
+
+    def viol(kind, detail, case):
+        if kind in kinds:
+            return
+        kinds.add(kind)
+        v = Violation(PROP, 'end-to-end', kind, dict(), '%r: %s' % (case, detail)).as_dict()
+        v['case'] = case
+        violations.append(v)
+    bad_params = [('unknown-interface', {'address': MAC_R, 'local_if': 'nope9'}), ('address-not-a-mac', {'address': 'zz:zz', 'local_if': IFNAME}),
+                  ('no-address', {'local_if': IFNAME})]
+    for (bname, bprm) in bad_params:
+        for pattern in ('bad,good', 'good,bad,good', 'bad,bad,good', 'good,bad,good,good'):
+            for spacing in ('back-to-back', 'one-after-the-other'):
+                for mtu in (None, 100):
+                    count += 1
+                    case = dict(failing_request=bname, requests=pattern, spacing=spacing, mtu=mtu)
+                    world = BtpuWorld(dict(role='S', mtu=mtu))
+                    goods = []
+                    for (k, what) in enumerate(pattern.split(',')):
+                        if what == 'good':
+                            data = bytes((i * 3 + k * 11 + 1) & 0xFF for i in range(150 + k))
+                            goods.append(data)
+                            world.call('send_bundle_data', data, {'address': MAC_R, 'local_if': IFNAME})
+                        else:
+                            world.call('send_bundle_data', b'\x9f\xff', dict(bprm))
+                        if spacing == 'one-after-the-other':
+                            world.run_all()
+                    world.run_all()
+                    keys.add('%s/%s/%s/%s' % (bname, pattern, spacing, mtu))
+                    got = []
+                    per = {}
+                    try:
+                        for f in world.net.frame_log:
+                            for (mtype, hints, body) in dec_message_set(f['frame'][14:]):
+                                if mtype == M_BUNDLE:
+                                    got.append(body)
+                                elif mtype in (M_SEG, M_END):
+                                    (xfer, sidx) = struct.unpack('!II', body[:8])
+                                    per.setdefault(xfer, []).append((sidx, body[8:]))
+                    except ValueError as err:
+                        viol('frame-undecodable', str(err), case)
+                        continue
+                    for segs in per.values():
+                        got.append(b''.join(c for (_i, c) in sorted(segs)))
+                    missing = [len(g) for g in goods if g not in got]
+                    if missing:
+                        viol('ordinary-request-not-emitted-after-a-failed-one', 'bundles of %r octets never left the node (emitted: %r)'
+                             % (missing, [len(g) for g in got]), case)
+    return dict(name=params['name'], evaluations=count, nontrivial_keys=sorted(keys), violations=violations, known=[], samples=[])
+
+
 def run_pop_histories(params, known):
     '''Receive / pop histories: three bundles (each in two segments, in order or reversed) arrive
     one after the other; the user pops any announced and not yet popped bundle at any point.
@@ -727,6 +786,7 @@ def run_pop_histories(params, known):
 def scenarios(tier):
     out = []
     out.append(dict(name='pop-histories', kind='enum', runner='run_pop_histories', params=dict(name='pop-histories'), weight=10))
+    out.append(dict(name='failed-request-then-good', kind='enum', runner='run_failed_request_then_good', params=dict(name='failed-request-then-good'), weight=10))
     out.append(dict(name='unusable-between', kind='enum', runner='run_unusable_between', params=dict(name='unusable-between'), weight=10))
     out.append(dict(name='send-receive', kind='enum', runner='run_send_receive', params=dict(name='send-receive'), weight=30))
     for part in range(6):
@@ -758,6 +818,7 @@ ASSUMPTIONS = [
     'Ethernet frames on a virtual AF_PACKET socket; the MTU bounds the message set carried in one frame',
     'the 1 s transfer timers fire only after the last segment of a delivery (then all of them, in deadline order)',
     'eleven kinds of unusable frames (an Ethernet frame without payload octets does not occur: frames are padded) before / between / after the two segments of a transfer',
+    'a send request that cannot be carried out (unknown interface, malformed or missing address) among ordinary ones, back to back and one after the other',
     'send/receive: bundles of 65535-70000 octets with no MTU / an MTU above / Ethernet size, and two or three bundles handed over back to back, frames arriving in order, alternating and reversed',
     'reassembly: 3-5 segments of two octets each, all permutations; a second two-segment transfer slipped in at every pair of positions, in both orders',
 ]
